@@ -25,7 +25,7 @@ func TestMain(m *testing.M) { drv.Main(m) }
 // stages of one layer become eligible together.
 type Stage struct {
 	Layer    int    `json:"layer"`
-	Task     string `json:"task"`               // task name (several stages may use the same task)
+	Task     string `json:"task"`                // task name (several stages may use the same task)
 	ExportAs string `json:"export_as,omitempty"` // of the task
 	Outcome  string `json:"outcome,omitempty"`   // "" ok | "fail-allowed" (stage allow_failure) : the next layer still runs
 }
@@ -33,6 +33,9 @@ type Stage struct {
 // Case is one pipeline.
 type Case struct {
 	Stages []Stage `json:"stages"`
+	// Where the stage waits for the others of its layer: "" = in the task's command, "condition" = in the task's
+	// condition, "before" = in the task's before hook (these two use one task per stage, with literal texts)
+	Where string `json:"where,omitempty"`
 }
 
 func (c Case) canon() string { b, _ := json.Marshal(c); return string(b) }
@@ -56,7 +59,7 @@ func run(c Case, dir string, scale int) (err error, timing bool) {
 	tasks := gen.Map{}
 	exports := map[string]string{}
 	for _, s := range c.Stages {
-		if _, ok := tasks.Get(s.Task); ok {
+		if _, ok := tasks.Get(s.Task); ok || c.Where != "" {
 			continue
 		}
 		// the command is the same for every stage of the task: it gets its identity and its wait list
@@ -82,8 +85,28 @@ func run(c Case, dir string, scale int) (err error, timing bool) {
 			final = "exit 3"
 			st = st.Set("allow_failure", true)
 		}
-		st = st.Set("variables", gen.Map{{K: "sid", V: sid}, {K: "mark", V: filepath.Join(dir, "m", sid)}, {K: "waitfor", V: strings.Join(waits, " && ")},
-			{K: "limit", V: fmt.Sprint(250 * scale)}, {K: "final", V: final}})
+		if c.Where != "" {
+			// one task per stage; the waiting loop sits in its condition or its before hook
+			tn := fmt.Sprintf("%s.%d", s.Task, i)
+			trace := filepath.Join(dir, "trace")
+			wait := fmt.Sprintf("touch %s; i=0; while ! { %s; }; do sleep 0.02; i=$((i+1)); if [ $i -gt %d ]; then printf 'TIMEOUT %s\n' >> %s; exit 9; fi; done",
+				filepath.Join(dir, "m", sid), strings.Join(waits, " && "), 250*scale, sid, trace)
+			tk := gen.Map{{K: "command", V: gen.List{fmt.Sprintf("printf 'MET %s\n' >> %s; %s", sid, trace, final)}}}
+			if c.Where == "condition" {
+				tk = tk.Set("condition", wait)
+			} else {
+				tk = tk.Set("before", gen.List{wait})
+			}
+			tasks = tasks.Set(tn, tk)
+			st = gen.Map{{K: "name", V: sid}, {K: "task", V: tn}}
+			if s.Outcome == "fail-allowed" {
+				st = st.Set("allow_failure", true)
+			}
+		}
+		if c.Where == "" {
+			st = st.Set("variables", gen.Map{{K: "sid", V: sid}, {K: "mark", V: filepath.Join(dir, "m", sid)}, {K: "waitfor", V: strings.Join(waits, " && ")},
+				{K: "limit", V: fmt.Sprint(250 * scale)}, {K: "final", V: final}})
+		}
 		if s.Layer > 0 {
 			var deps gen.List
 			for _, j := range ls[s.Layer-1] {
@@ -124,6 +147,7 @@ var nameGroups = [][]string{{"build-app", "build.app", "BUILD_APP"}, {"test", "T
 
 func genCase(rt *rapid.T) Case {
 	var c Case
+	c.Where = rapid.SampledFrom([]string{"", "", "condition", "before"}).Draw(rt, "where")
 	nl := rapid.IntRange(1, 3).Draw(rt, "layers")
 	taskNames := []string{}
 	for _, g := range nameGroups {
@@ -181,7 +205,7 @@ func record(c Case) {
 			}
 		}
 	}
-	cls := []string{fmt.Sprintf("layers=%d", len(ls)), fmt.Sprintf("stages=%d", len(c.Stages))}
+	cls := []string{fmt.Sprintf("layers=%d", len(ls)), fmt.Sprintf("stages=%d", len(c.Stages)), "waiting-in=" + map[string]string{"": "command"}[c.Where] + c.Where}
 	if shared {
 		cls = append(cls, "one-task-in-two-concurrent-stages")
 	}
